@@ -18,6 +18,8 @@ pub enum Op {
     SynLeaf,
     /// `.at(<fresh name>)` on the top
     At,
+    /// `.at(<the name the previous At used>)` on the top (repeated segments such as `a/a`)
+    AtSame,
     /// `.with_span(<next span of a pool of three>)` on the top
     WithSpan,
     Multiple1,
@@ -28,7 +30,7 @@ pub enum Op {
     IntoIter,
 }
 
-pub const OPS: [Op; 10] = [Op::Leaf, Op::SynLeaf, Op::At, Op::WithSpan, Op::Multiple1, Op::Multiple2, Op::Multiple3, Op::Flatten, Op::Clone, Op::IntoIter];
+pub const OPS: [Op; 11] = [Op::Leaf, Op::SynLeaf, Op::At, Op::AtSame, Op::WithSpan, Op::Multiple1, Op::Multiple2, Op::Multiple3, Op::Flatten, Op::Clone, Op::IntoIter];
 
 const MAX_STACK: usize = 4;
 const N_KINDS: u32 = 11;
@@ -167,7 +169,7 @@ impl Machine {
         let n = model.len();
         match op {
             Op::Leaf | Op::SynLeaf => n < MAX_STACK,
-            Op::At | Op::WithSpan | Op::Flatten | Op::Multiple1 => n >= 1,
+            Op::At | Op::AtSame | Op::WithSpan | Op::Flatten | Op::Multiple1 => n >= 1,
             Op::Multiple2 => n >= 2,
             Op::Multiple3 => n >= 3,
             Op::Clone => n >= 1 && n < MAX_STACK && model[n - 1].size() <= 6,
@@ -190,6 +192,12 @@ impl Machine {
             Op::At => {
                 let name = format!("p{}", self.next_name);
                 self.next_name += 1;
+                let e = self.real.pop().unwrap();
+                self.real.push(e.at(&name));
+                self.model.last_mut().unwrap().locs_mut().insert(0, name);
+            }
+            Op::AtSame => {
+                let name = format!("p{}", self.next_name.saturating_sub(1));
                 let e = self.real.pop().unwrap();
                 self.real.push(e.at(&name));
                 self.model.last_mut().unwrap().locs_mut().insert(0, name);
@@ -465,6 +473,7 @@ fn model_step(model: &[RT], hist: &[Op], op: Op) -> Vec<RT> {
         Op::Leaf => m.push(RT::Leaf { id: next_id, syn: false, locs: vec![], span: None }),
         Op::SynLeaf => m.push(RT::Leaf { id: next_id, syn: true, locs: vec![], span: Some(3) }),
         Op::At => m.last_mut().unwrap().locs_mut().insert(0, format!("p{next_name}")),
+        Op::AtSame => m.last_mut().unwrap().locs_mut().insert(0, format!("p{}", next_name.saturating_sub(1))),
         Op::WithSpan => {
             let s = m.last_mut().unwrap().span_mut();
             if s.is_none() {
